@@ -910,7 +910,7 @@ func queueSummaries(c *core.Ctx, q *queueHelpers) {
 			}
 			// the node: the value whose .value is set to param x
 			var node *ir.Term
-			for _, st := range nonLocalStores(p) {
+			for _, st := range expandLitStores(nonLocalStores(p)) {
 				if st.A[0].Op == "faddr" && st.A[0].Aux == q.fValue && paramOf(st.A[1], fn, q.xi[fn]) {
 					node = st.A[0].Args[0]
 				}
@@ -922,7 +922,7 @@ func queueSummaries(c *core.Ctx, q *queueHelpers) {
 			tailNil := polarity(p, isNilAtom(fld(qp, q.fTail)))
 			headNil := polarity(p, isNilAtom(fld(qp, q.fHead)))
 			var setNextNil, linkAfterTail, setTail, setHead bool
-			for _, st := range nonLocalStores(p) {
+			for _, st := range expandLitStores(nonLocalStores(p)) {
 				a, v := st.A[0], st.A[1]
 				switch {
 				case a.Op == "faddr" && a.Aux == q.fNext && ir.Same(a.Args[0], node) && v.IsNil():
@@ -1159,4 +1159,47 @@ func tallyUses(v ssa.Value, field string, depth int) bool {
 		}
 	}
 	return true
+}
+
+// expandLitStores: a store of a whole struct value built by a composite literal (`*n = node{value: x, next: nil}`) is
+// the stores of its fields - the explicit ones, and nil for the omitted pointer-like ones (no base value: a plain
+// literal). Other stores pass through.
+func expandLitStores(stores []*ir.Step) []*ir.Step {
+	var out []*ir.Step
+	for _, st := range stores {
+		if st.Kind != ir.KStore || len(st.A) < 2 || st.A[1] == nil || st.A[1].Op != "lit" || ir.LitBase(st.A[1]) != nil {
+			out = append(out, st)
+			continue
+		}
+		seen := map[string]bool{}
+		for _, kv := range ir.LitFields(st.A[1]) {
+			seen[kv.Aux] = true
+			cp := *st
+			cp.A = []*ir.Term{{Op: "faddr", Aux: kv.Aux, Args: []*ir.Term{st.A[0]}}, kv.Args[0]}
+			out = append(out, &cp)
+		}
+		if stt, isS := typeOfTerm(st.A[1]); isS {
+			for i := 0; i < stt.NumFields(); i++ {
+				f := stt.Field(i)
+				if seen[f.Name()] {
+					continue
+				}
+				switch f.Type().Underlying().(type) {
+				case *types.Pointer, *types.Slice, *types.Map, *types.Chan, *types.Interface, *types.Signature:
+					cp := *st
+					cp.A = []*ir.Term{{Op: "faddr", Aux: f.Name(), Args: []*ir.Term{st.A[0]}}, ir.Nil}
+					out = append(out, &cp)
+				}
+			}
+		}
+	}
+	return out
+}
+
+func typeOfTerm(t *ir.Term) (*types.Struct, bool) {
+	if t == nil || t.Typ == nil {
+		return nil, false
+	}
+	st, ok := t.Typ.Underlying().(*types.Struct)
+	return st, ok
 }
